@@ -12,6 +12,7 @@ require (
 	github.com/DistCompiler/pgo/systems/pbkvs v0.0.0
 	github.com/DistCompiler/pgo/systems/proxy v0.0.0
 	github.com/DistCompiler/pgo/systems/raftkvs v0.0.0
+	github.com/DistCompiler/pgo/systems/replicatedkv v0.0.0-00010101000000-000000000000
 	github.com/DistCompiler/pgo/systems/shcounter v0.0.0
 	github.com/DistCompiler/pgo/systems/shopcart v0.0.0
 	github.com/benbjohnson/immutable v0.4.3
